@@ -13,6 +13,7 @@
 EXTENDS Eval, Json
 
 CONSTANTS Level,      \* 1: E1 (every operator on every leaf / pair of leaves)   2: + compositions
+          TogEvery,   \* eval-all ("together") mode is generated for every TogEvery-th expression of the shard
           NShards, Shard   \* only expressions with index % NShards = Shard are evaluated
 
 A == <<"a">>  B == <<"b">>  AB == <<"a", "b">>
@@ -53,7 +54,9 @@ Slices == << ESlice(ELit(IntV(1)), ENul("LENGTH")), ESlice(ELit(IntV(0)), ELit(I
              ESlice(ELit(IntV(0)), ELit(IntV(-3))), ESlice(ELit(IntV(3)), ENul("LENGTH")) >>
 Nullary == << ENul("LENGTH"), ENul("KEYS"), ENul("REVERSE"), ENul("UNIQUE"), EFlatten(-1), EFlatten(1), ENul("ANY"), ENul("ALL"),
               ENul("TO_ENTRIES"), ENul("FROM_ENTRIES"), ENul("NOT"), ERecurse(TRUE) >>
-Leaf == Paths0 \o Lits \o Slices \o Nullary
+PathSlices == << ETravArr(EPath(A), ECollect(EBin("CREATE_MAP", ELit(IntV(1)), ENul("LENGTH")))), ETravArr(EPath(A), ECollect(EBin("CREATE_MAP", ELit(IntV(0)), ELit(IntV(1))))),
+                 ETravArr(EPath(A), ECollect(ELit(IntV(0)))), ETravArr(EPath(B), ECollect(EEmpty)) >>
+Leaf == Paths0 \o Lits \o Slices \o Nullary \o PathSlices
 LeafCore == << ESelf, EPath(A), EPath(B), ESplat, EIndex(0), ELit(IntV(2)), ELit(StrV(A)), ELit(Null), ELit(BoolV(FALSE)), ENul("LENGTH"), ECollect(EEmpty) >>
 
 UnOps == << "SELECT", "MAP", "FILTER", "HAS", "ANY_CONDITION", "ALL_CONDITION", "UNIQUE_BY", "GROUP_BY", "WITH_ENTRIES", "JOIN", "SPLIT", "COLLECT" >>
@@ -93,11 +96,12 @@ ASSUME PrintT(<<"CARDINALITY", Len(ExprSeq), Len(DocSeq)>>)
 
 VARIABLES di, phase
 Init == di \in DOMAIN DocSeq /\ phase = 0
-Vec(ei, i) == LET r == Run(ExprSeq[ei], DocSeq[i]) IN
-   [t |-> "v", di |-> i, ei |-> ei, st |-> r.st,
+Vec(ei, i, tog) == LET r == IF tog THEN RunTog(ExprSeq[ei], DocSeq[i]) ELSE Run(ExprSeq[ei], DocSeq[i]) IN
+   [t |-> "v", di |-> i, ei |-> ei, tog |-> tog, st |-> r.st,
     res |-> IF r.st = "ok" THEN Results(r) ELSE <<>>,
     same |-> r.doc = DocSeq[i],
     after |-> IF r.doc = DocSeq[i] THEN Null ELSE r.doc]
 Next == /\ phase = 0 /\ phase' = 1 /\ di' = di
-        /\ \A ei \in DOMAIN ExprSeq : ei % NShards # Shard \/ PrintT("@@" \o ToJson(Vec(ei, di)))
+        /\ \A ei \in DOMAIN ExprSeq : ei % NShards # Shard \/ PrintT("@@" \o ToJson(Vec(ei, di, FALSE)))
+        /\ \A ei \in DOMAIN ExprSeq : ei % (NShards * TogEvery) # Shard \/ PrintT("@@" \o ToJson(Vec(ei, di, TRUE)))
 =============================================================================
